@@ -1,4 +1,7 @@
+#[cfg(not(feature = "gohla_pie_verif"))]
 use std::collections::HashSet;
+#[cfg(feature = "gohla_pie_verif")]
+use pie_graph::verif::HashSet;
 use std::error::Error;
 use std::fmt::Debug;
 use std::ops::{Deref, DerefMut};
